@@ -7,7 +7,7 @@
 (* states what must hold between container contents and those observations.     *)
 (* Contents are sequences in iteration order: elements for value containers,    *)
 (* <<key, value>> pairs for key-value containers.                                *)
-EXTENDS AbsSet, Generic, Json, IOUtils
+EXTENDS AbsJSON, Generic, Json, IOUtils
 
 Trace == ndJsonDeserialize(IOEnv.TRACE)
 Prop  == IOEnv.PROP
@@ -30,34 +30,7 @@ C11(e) ==
     /\ e.loaderr2 = FALSE /\ e.fsize2 = e.size /\ SameContent(e.cfg, e.fresh2, e.orig) /\ e.fdrain2 = e.odrain
     /\ e.size = Len(e.orig)
 
-\* ---- C12 ----------------------------------------------------------------------------------------
-LastIn(S) == CHOOSE i \in S : \A j \in S : j <= i
-RKeys(ref) == {ref[i][1] : i \in DOMAIN ref}
-LastVal(ref, k) == ref[LastIn({i \in DOMAIN ref : ref[i][1] = k})][2]       \* duplicate keys: last wins
-Graph(ref) == {<<k, LastVal(ref, k)>> : k \in RKeys(ref)}
-PKeys(post) == [i \in DOMAIN post |-> post[i][1]]
-setcfg(cfg) == [sorted |-> cfg.disc = "sortedset", linked |-> cfg.disc = "linkedset", cmp |-> cfg.cmp]
-Tailn(s, n) == SubSeq(s, Len(s) - n + 1, Len(s))
-Min2(a, b) == IF a < b THEN a ELSE b
-
-LoadOK(cfg, ref, post) ==
-  IF ~cfg.kv THEN
-    CASE cfg.disc = "seq"       -> post = ref
-      [] cfg.disc = "ring"      -> post = Tailn(ref, Min2(cfg.cap, Len(ref)))          \* keeps the last capacity-many
-      [] cfg.disc \in {"stack", "heap"} -> SameBag(post, ref)
-      [] cfg.disc = "unordered" -> Members(post) = Members(ref) /\ NoDup(post)          \* sets deduplicate
-      [] cfg.disc \in {"linkedset", "sortedset"} -> post = AddAll(setcfg(cfg), <<>>, ref) \* ... and sort
-  ELSE
-    /\ NoDup(PKeys(post))
-    /\ IF cfg.bidi
-       THEN \* any outcome of Putting the members of the decoded map in some order:
-            /\ Members(post) \subseteq Graph(ref)
-            /\ {post[i][2] : i \in DOMAIN post} = {p[2] : p \in Graph(ref)}
-            /\ \A i, j \in DOMAIN post : post[i][2] = post[j][2] => i = j                \* stays one-to-one
-       ELSE Members(post) = Graph(ref)
-    /\ (cfg.sorted => Ascending(cfg.cmp, PKeys(post)))                                   \* ordered containers sort
-    /\ ((cfg.disc = "linkedmap" /\ NoDup([i \in DOMAIN ref |-> ref[i][1]])) => PKeys(post) = [i \in DOMAIN ref |-> ref[i][1]])
-
+\* ---- C12 (LoadOK is defined in AbsJSON) ------------------------------------------------------------
 C12(e) ==
   e.op \in {"FromJSON", "Unmarshal"} =>
     /\ e.panic = FALSE /\ e.obsbad = FALSE
